@@ -1646,7 +1646,7 @@ func (it *snapIter) order(fr *frame) {
 	}
 	it.keys = keys
 	n := len(keys)
-	if fr != nil && fr.i.cfg.MapOrderChoice && n > 1 && fr.fn.Pkg != nil && fr.i.cfg.isTarget(fr.fn.Pkg.Pkg.Path()) {
+	if fr != nil && fr.i.cfg.MapOrderChoice && n > 1 && fr.i.isCodeUnderTest(fr.fn) {
 		if n <= 3 {
 			// all permutations: choose successive elements
 			rest := append([]value{}, keys...)
